@@ -98,6 +98,7 @@ func Variants(msaIn io.Reader, stdin bool, refID string, annoIn io.Reader, annoS
 	go fastaio.ReadEncodeAlignment(msaIn, false, cMSA, cErr, cMSADone)
 
 	firstmissing := false
+	msaDone := false
 
 	if stdin && refID != "" {
 		select {
@@ -109,7 +110,18 @@ func Variants(msaIn io.Reader, stdin bool, refID string, annoIn io.Reader, annoS
 		case err := <-cErr:
 			return err
 		case <-cMSADone:
-			return errors.New("is the pipe to --msa empty?") // TO DO - does this work/is this necessary?
+			// the reader can finish a short alignment before we get here, in which
+			// case its records are waiting in the channel's buffer
+			msaDone = true
+			select {
+			case ref = <-cMSA:
+				if ref.ID != refID {
+					return errors.New("--reference is not the first record in --msa")
+				}
+				firstmissing = true
+			default:
+				return errors.New("is the pipe to --msa empty?")
+			}
 		}
 	}
 
@@ -233,7 +245,10 @@ func Variants(msaIn io.Reader, stdin bool, refID string, annoIn io.Reader, annoS
 		cVariantsDone <- true
 	}()
 
-	for n := 1; n > 0; {
+	if msaDone {
+		close(cMSA)
+	}
+	for n := 1; n > 0 && !msaDone; {
 		select {
 		case err := <-cErr:
 			return err
